@@ -208,6 +208,19 @@ pub fn run(run: &mut Run) {
     let n = run.tier.pick(100_000, 4_000_000);
     run.prop("level", n, (any_level(), any::<bool>()).prop_map(|(x, f32)| LevelCase { x: X(x), f32 }), level_case);
     run.prop("pair", n, (0u8..4, valid_level(), 0u8..4, valid_level()).prop_map(|(k1, l1, k2, l2)| PairCase { k1, l1: X(l1), k2, l2: X(l2) }), pair_case);
+    // levels a few ulps apart (ordering must follow the level itself, not a rounded image of it)
+    let near = (0u8..4, valid_level(), 0u8..4, -3i32..=3, any::<bool>()).prop_map(|(k1, l1, k2, d, same)| {
+        let mut l2 = l1;
+        for _ in 0..d.unsigned_abs() {
+            l2 = if d > 0 { next_up(l2) } else { next_down(l2) };
+        }
+        let l2 = if l2 > 0.0 && l2 < 1.0 { l2 } else { l1 };
+        PairCase { k1, l1: X(l1), k2: if same { k1 } else { k2 }, l2: X(l2) }
+    });
+    run.prop("pair_adjacent", n, near, |c, obs| {
+        obs.class(if c.l1.0 == c.l2.0 { "pair/adjacent/same-level" } else { "pair/adjacent/ulps-apart" });
+        pair_case(c, obs)
+    });
     // fixed facts
     run.case("default", &(), |_, obs| {
         obs.eval();
@@ -215,7 +228,7 @@ pub fn run(run: &mut Run) {
         ensure!(d == Confidence::new_two_sided(0.95) && d.is_two_sided() && d.level() == 0.95, "C18/default", "Default is {d:?}");
         Ok(())
     });
-    for c in ["level/nan", "level/inf", "level/zero", "level/one", "level/negative", "level/above-one", "level/valid", "level/valid-tiny", "level/valid-near-one", "pair/same-kind", "pair/mixed-kind"] {
+    for c in ["level/nan", "level/inf", "level/zero", "level/one", "level/negative", "level/above-one", "level/valid", "level/valid-tiny", "level/valid-near-one", "pair/same-kind", "pair/mixed-kind", "pair/adjacent/ulps-apart"] {
         run.require_class(c);
     }
     run.assumptions.push("enum variants built directly (Confidence::TwoSided(x)) bypass the constructors and are outside the property".into());
@@ -224,7 +237,7 @@ pub fn run(run: &mut Run) {
 pub fn replay(sub: &str, v: &Value, obs: &mut Obs) -> Option<PResult> {
     Some(match sub {
         "level" => level_case(&de(v), obs),
-        "pair" => pair_case(&de(v), obs),
+        "pair" | "pair_adjacent" => pair_case(&de(v), obs),
         "default" => Ok(()),
         _ => return None,
     })
